@@ -69,8 +69,9 @@ class Failure(dict):
 
 
 class World:
-    def __init__(self, mode, ctx=None, env=None, seed=0):
+    def __init__(self, mode, ctx=None, env=None, seed=0, flavor="float64"):
         self.mode = mode  # 'sym' | 'float'
+        self.flavor = flavor  # float mode only: 'float64' | 'int64' (integer-valued int64 arrays) | 'nan' (some cells NaN)
         self.ctx = ctx
         self.env = dict(env or {})
         self.rng = random.Random(seed)
@@ -101,6 +102,8 @@ class World:
             v = float(self.env[name])
         else:
             v = float(gen(self.rng)) if gen else float(self.rng.randint(-50, 50)) / 4.0
+        if self.flavor == "int64":
+            v = int(round(v)) if not gen else max(1, int(round(v)))
         self.used[name] = v
         return v
 
@@ -109,15 +112,22 @@ class World:
         shape = tuple(int(s) for s in shape)
         if self.sym:
             return sxc.symarr(name, shape)
-        a = np.empty(shape, dtype=float)
+        a = np.empty(shape, dtype=(np.int64 if self.flavor == "int64" else float))
         for idx in np.ndindex(*shape):
             n = name + "".join("_%d" % i for i in idx)
             if n in self.used:
                 v = self.used[n]
             elif n in self.env and self.env[n] is not None:
-                v = float(self.env[n])
+                v = self.env[n]
+                v = float(v) if v == v else float("nan")
             else:
                 v = float(gen(self.rng)) if gen else float(self.rng.randint(-50, 50)) / 4.0
+                if self.flavor == "int64":
+                    v = max(1, int(round(v))) if gen else int(round(v * 2))
+                elif self.flavor == "nan" and not gen and self.rng.random() < 0.25:
+                    v = float("nan")
+            if self.flavor == "int64":
+                v = int(v)
             self.used[n] = v
             a[idx] = v
         return a
@@ -482,11 +492,12 @@ def _cfg_digest(cfg):
     return hashlib.sha1(json.dumps(cfg, sort_keys=True, default=str).encode()).hexdigest()[:12]
 
 
-def run_float(mod, cfg, env=None, seed=0, tries=1, purpose="consistency"):
-    """run the case on ordinary float64 arrays against the real code, no shims"""
+def run_float(mod, cfg, env=None, seed=0, tries=1, purpose="consistency", flavor="float64"):
+    """run the case on ordinary numpy arrays (float64; or the int64 / NaN-carrying flavours of the concrete sweeps)
+    against the real code, no shims"""
     last = None
     for k in range(tries):
-        W = World("float", env=env, seed=seed + 7919 * k)
+        W = World("float", env=env, seed=seed + 7919 * k, flavor=flavor)
         W.purpose = purpose
         try:
             with warnings.catch_warnings():
@@ -633,6 +644,32 @@ def work_case(args):
                         out["consistency"] = 1
         except (KeyError, NotImplementedError) as e:
             out["errors"].append("consistency run failed: %r" % e)
+    # concrete sweeps (auxiliary, sampled, NOT solver-decided): the same case on integer-valued int64 arrays / on
+    # arrays carrying NaN, against the same oracle; reaches dtype- and NaN-dependent code that real-valued symbols cannot
+    sweeps = getattr(mod, "SWEEPS", None)
+    if sweeps:  # independent real runs: also made when the symbolic run could not give a verdict
+        h = int(_cfg_digest(cfg), 16)
+        for flavor, every in sweeps.items():
+            sel = getattr(mod, "sweep_applies", lambda cfg, flavor: True)(cfg, flavor)
+            if not sel or (h + seed) % every != 0:
+                continue
+            try:
+                WS = run_float(mod, cfg, env=None, seed=seed + 13, tries=3, purpose="sweep", flavor=flavor)
+            except Exception as e:  # noqa
+                out["errors"].append("sweep %s crashed: %r" % (flavor, e))
+                continue
+            if WS is None:
+                continue
+            out["sweeps"] = out.get("sweeps", 0) + 1
+            seen_s = set()
+            for f in WS.failures:
+                if f["label"] in seen_s:
+                    continue
+                seen_s.add(f["label"])
+                out["violations"].append(dict(label="sweep:%s:%s" % (flavor, f["label"]), detail_sym="(concrete sweep, flavour %s)" % flavor,
+                                              detail_float=f["detail"], env=WS.used))
+                if len(seen_s) >= 3:
+                    break
     out["wall"] = time.time() - t0
     if trace:
         print("END %d %.1fs paths=%d" % (os.getpid(), out["wall"], out["paths"]), file=sys.stderr, flush=True)
@@ -797,7 +834,7 @@ def finish(mod, tier, seed, results, wall, shim_checks, pre_info, ncases):
     prop = mod.ID
     openf, fixed = load_known(prop)
     tot = dict(paths=0, forks=0, oblig=0, discharged=0, syntactic=0, struct=0, inconclusive=0, solver_s=0.0,
-               solver_calls=0, pc_checks=0, consistency=0, nonvacuous_paths=0)
+               solver_calls=0, pc_checks=0, consistency=0, nonvacuous_paths=0, sweeps=0)
     labels = {}
     errors, viols, samples = [], [], []
     for r in results:
@@ -891,6 +928,8 @@ def finish(mod, tier, seed, results, wall, shim_checks, pre_info, ncases):
             "bounds": bounds,
             "outside_claim": getattr(mod, "OUTSIDE", []),
             "functions_encoded": source_digests(getattr(mod, "FUNCTIONS", [])),
+            "concrete_sweeps": {"runs": tot["sweeps"], "flavours": getattr(mod, "SWEEPS", {}),
+                                "note": "auxiliary sampled runs of the same cases on int64 / NaN-carrying arrays against the same oracle; not solver-decided"},
             "known_findings_hit": sorted(known_hit),
             "fixed_findings_watched": sorted(fixed),
             "harness_errors": [e for _, e in errors[:5]],
@@ -926,8 +965,11 @@ def write_replay(mod, cfg, v, key):
 
 def replay(mod, path):
     body = json.load(open(path))
-    WF = run_float(mod, body["cfg"], env=body.get("env"), seed=0, purpose="replay")
-    hit = [f for f in (WF.failures if WF else []) if f["label"] == body["label"]]
+    flavor, label = "float64", body["label"]
+    if label.startswith("sweep:"):
+        _, flavor, label = label.split(":", 2)
+    WF = run_float(mod, body["cfg"], env=body.get("env"), seed=0, purpose="replay", flavor=flavor)
+    hit = [f for f in (WF.failures if WF else []) if f["label"] == label]
     if hit:
         print("REPRODUCED %s: %s" % (body["label"], hit[0]["detail"]))
         print("VIOLATION property=%s replay=%s" % (mod.ID, path))
